@@ -154,6 +154,29 @@ def class_table(isa, rng, tries=4000, per=12):
     return tab
 
 
+TABLES = {}     # (isa, seed) -> class table; filled once by the parent (table_job) and inherited / passed to the jobs
+
+
+def table_job(args):
+    """worker: the class table of one ISA for this seed (list form, picklable)"""
+    quiet()
+    isa, seed = args
+    try:
+        tab = class_table(isa, random.Random("%s/%d/tab" % (isa, seed)))
+    except Exception as e:
+        return isa, None, "<".join(exc_sig(e))
+    return isa, tab, ""
+
+
+def get_table(isa, seed, tables=None):
+    if tables is not None and isa in tables:
+        return tables[isa]
+    key = (isa, seed)
+    if key not in TABLES:
+        TABLES[key] = class_table(isa, random.Random("%s/%d/tab" % (isa, seed)))
+    return TABLES[key]
+
+
 def elf_text(path):
     """(offset, size) of the .text section of an ELF file (input selection only), or None"""
     try:
@@ -347,11 +370,12 @@ def _sweep_body(t, z, cpu, loc, start, rng, nops):
 def sweep_job(args):
     """worker: all sweep traces of one ISA"""
     quiet()
-    isa, seed, nbuf, bufsize, tid0, all_starts = args
+    isa, seed, nbuf, bufsize, tid0, all_starts = args[:6]
+    tables = args[6] if len(args) > 6 else None
     rng = random.Random("%s/%d/sweep" % (isa, seed))
     out = []
     try:
-        tab = class_table(isa, rng)
+        tab = get_table(isa, seed, tables)
     except Exception as e:
         return {"isa": isa, "traces": [], "error": "class_table: " + "<".join(exc_sig(e))}
     bufs = []
@@ -390,11 +414,11 @@ def sweep_job(args):
 class Host(object):
     """an ISA able to host model streams: class table + unit"""
 
-    def __init__(self, isa, unit, rng):
+    def __init__(self, isa, unit, seed, tables=None):
         self.isa = isa
         self.unit = unit
         self.cpu = cpu_of(isa)
-        self.tab = class_table(isa, rng)
+        self.tab = get_table(isa, seed, tables)
 
     def can(self, L, F):
         return all((l * self.unit, f) in self.tab for l, f in zip(L, F))
@@ -517,13 +541,14 @@ def replay_chunk(args):
     hosts: list of (isa, unit) eligible for this generator; which: 'one' (rotate) or 'all'."""
     quiet()
     from . import tlc
-    path, lo, hi, seed, stride, offset, hosts, which, tid0, tag = args
+    path, lo, hi, seed, stride, offset, hosts, which, tid0, tag = args[:10]
+    tables = args[10] if len(args) > 10 else None
     wide = tag.startswith("wide")
     rng = random.Random("%s/%d/%d" % (tag, seed, lo))
     H = []
     for isa, unit in hosts:
         try:
-            H.append(Host(isa, unit, random.Random("%s/%d/tab" % (isa, seed))))
+            H.append(Host(isa, unit, seed, tables))
         except Exception:
             continue
     traces = []
@@ -577,12 +602,13 @@ def replay_chunk(args):
 def history_job(args):
     """worker: random insertion histories (many blocks, links, re-insertions) over encoded / sample buffers"""
     quiet()
-    isa, seed, ntr, ninstr, tid0, wide = args
+    isa, seed, ntr, ninstr, tid0, wide = args[:6]
+    tables = args[6] if len(args) > 6 else None
     rng = random.Random("%s/%d/hist/%d" % (isa, seed, 1 if wide else 0))
     cpu = cpu_of(isa)
     pcs = cpu.PC().size
     try:
-        tab = class_table(isa, rng)
+        tab = get_table(isa, seed, tables)
     except Exception as e:
         return {"isa": isa, "traces": [], "error": "<".join(exc_sig(e))}
     from amoco.sa import lsweep
